@@ -75,6 +75,9 @@ func ZZC11(n int) {
 	case 5: // WithAllowedCORS(maxAge): any origin, any header
 		origins, allowH = []string{"*"}, []string{"*"}
 	case 6: // WithDenyCORS()
+	case 7: // a later WithDenyCORS overrides an earlier grant-all
+	case 8: // a later WithCORS overrides an earlier deny
+		origins, allowH = zzOrigins[2], zzAllowHdrs[2]
 	default:
 		origins = zzOrigins[oi]
 		allowH = zzAllowHdrs[n/100%10]
@@ -98,15 +101,20 @@ func ZZC11(n int) {
 		r = zzNewRouter("r", WithAllowedCORS(maxAge))
 	case 6:
 		r = zzNewRouter("r", WithDenyCORS())
+	case 7:
+		r = zzNewRouter("r", WithAllowedCORS(5), WithDenyCORS())
+	case 8:
+		r = zzNewRouter("r", WithDenyCORS(), WithCORS(origins, allowH, exposed, maxAge, cred))
 	default:
 		r = zzNewRouter("r", WithCORS(origins, allowH, exposed, maxAge, cred))
 	}
 	r.Handle("/a", &hnd{id: 1}, nil, "GET", "DELETE")
+	r.Handle("/", &hnd{id: 2}, nil, "GET", "DELETE")
 
 	// the request
-	rq := zzv.Choice("rq", 7)
-	method := []string{"GET", "HEAD", "POST", "OPTIONS", "OPTIONS", "GET", ""}[rq]
-	path := []string{"/a", "/a", "/a", "/a", "*", "/zz", "/a"}[rq]
+	rq := zzv.Choice("rq", 9)
+	method := []string{"GET", "HEAD", "POST", "OPTIONS", "OPTIONS", "GET", "", "OPTIONS", "GET"}[rq]
+	path := []string{"/a", "/a", "/a", "/a", "*", "/zz", "/a", "/", "/"}[rq]
 	req := zzReq(method, path)
 	hasOrigin := zzv.Choice("hasorigin", 2) == 1
 	origin := ""
@@ -164,7 +172,7 @@ func ZZC11(n int) {
 	routeAllow := []string{"DELETE", "GET", "HEAD", "OPTIONS"}
 	served := false
 	switch path {
-	case "/a":
+	case "/a", "/":
 		served = method == "GET" || method == "HEAD" || method == "OPTIONS"
 	case "*":
 		served = method == "OPTIONS"
